@@ -32,8 +32,8 @@ def bead_layout(inst, stream=0, container='int', n_events=120, n_pop=6, few=Fals
     return lay, truth
 
 
-def cell_layout(inst, stream=0, container='int', n=900, negatives=False, voltage_shift=0, linear_fl=False, level=200.0, res=None, overrange=False, voltages=None, no_voltage=False, clock='ticks'):
-    return beadsgen.cell_sample(dict(clock=clock, n=n, container=container, stream=stream, names=inst['fl'], fsc=inst['fsc'], ssc=inst['ssc'],
+def cell_layout(inst, stream=0, container='int', n=900, negatives=False, voltage_shift=0, linear_fl=False, level=200.0, res=None, overrange=False, voltages=None, no_voltage=False, clock='ticks', scatter_neg_head=False):
+    return beadsgen.cell_sample(dict(clock=clock, scatter_neg_head=scatter_neg_head, n=n, container=container, stream=stream, names=inst['fl'], fsc=inst['fsc'], ssc=inst['ssc'],
                                      time=inst['time'], negatives=negatives, voltage_shift=voltage_shift, linear_fl=linear_fl, level=level, res=res,
                                      overrange=overrange, voltages=voltages, no_voltage=no_voltage))
 
